@@ -157,6 +157,18 @@ def run(tier):
                 add({'e': step['op'], 'g': g, 'key': enc.enc_cat(k), 'found': bool(found), 'size': len(store)},
                     {'container': container, 'history': [(s['op'], enc.show_cat(s['key'])) for s in hist]})
     rejects, stats = validate('traces/ValueTrace.tla', events, 'c13', per_shard=12000, group='g')
+    from ..trace import binding_demo
+
+    def flip_eq(e):
+        if e['e'] == 'eq':
+            e['res'] = not e['res']
+            return e
+
+    def flip_found(e):
+        if e['e'] == 'look':
+            e['found'] = not e['found']
+            return e
+    demo = binding_demo('traces/ValueTrace.tla', events, [('eq_result_flipped', flip_eq), ('lookup_result_flipped', flip_found)], 'c13', group='g')
     viols = []
     for (i, clause) in rejects:
         m = metas[i]
@@ -167,6 +179,7 @@ def run(tier):
         'transitions': trans + stats.transitions,
         'traces_validated_against_impl': len(events),
         'exhaustive': True,
+        'binding_demonstration': demo,
         'events': {'universe_values': len(universe), 'universe_pairs': n_pairs, 'random_values': n_rand,
                    'container_histories': n_hist, 'total_events': len(events)},
         'samples': [dict(metas[events[i]['id']], event=events[i]['e']) for i in (0, 1, 2 * n_pairs + 3, 2 * n_pairs + 5 * len(universe) + 2, len(events) - 1)],
